@@ -6,8 +6,9 @@
    (`harness dump-units`); "finite" theorems below are exhaustive vm_compute checks whose bound is
    that table, re-checked whenever it changes.  The model is tied to the code by the
    UNITS / RESOLVE / LOWER correspondence streams of checks/c17.py. *)
-From Coq Require Import ZArith QArith String List Bool.
-Require Import Blots.Num Blots.UnitsBase Blots.gen.UnitsTable Blots.Units Blots.proofs.UnitsLaws.
+From Coq Require Import ZArith QArith String List Bool Reals.
+From Flocq Require Import Core BinarySingleNaN.
+Require Import Blots.Num Blots.UnitsBase Blots.gen.UnitsTable Blots.Units Blots.proofs.UnitsLaws Blots.proofs.UnitsFloat.
 Import ListNotations.
 Open Scope Z_scope.
 
@@ -247,3 +248,48 @@ Proof. exact convert_many_spec. Qed.
 Check C17_convert_many_spec : forall A vs a b,
   convert_many A vs a b = map (fun v => convert A v a b) vs.
 Print Assumptions C17_convert_many_spec.
+
+(* ---- binary64: "there and back returns the original value within floating-point rounding" ----
+   for the linear kind: four roundings, each of relative error at most u53 = 2^-53, provided no
+   intermediate result leaves the normal range [2^-1022, 2^1023] (true for every table coefficient and
+   |v| in [1e-12, 1e12] by a wide margin; the side conditions are stated on the computed values).
+   Uses Flocq, hence the four standard real-number/classical axioms (allow-listed). *)
+Theorem C17_table_coefficients_finite : forall u c,
+  In u all_units -> coef_of u = Some c -> fin (num_of_bits (l_bits c)).
+Proof. exact table_coefficients_finite. Qed.
+Check C17_table_coefficients_finite : forall u c,
+  In u all_units -> coef_of u = Some c -> fin (num_of_bits (l_bits c)).
+Print Assumptions C17_table_coefficients_finite.
+
+Theorem C17_there_and_back_float_linear : forall ua ub la lb v,
+  u_conv ua = Linear la -> u_conv ub = Linear lb ->
+  let ca := num_of_bits (l_bits la) in
+  let cb := num_of_bits (l_bits lb) in
+  fin v -> fin ca -> fin cb ->
+  let r1 := nmul v ca in
+  let r2 := through_base fl v ua ub in
+  let r3 := nmul r2 cb in
+  let r4 := through_base fl r2 ub ua in
+  in_range (Rv v * Rv ca) -> in_range (Rv r1 / Rv cb) ->
+  in_range (Rv r2 * Rv cb) -> in_range (Rv r3 / Rv ca) ->
+  exists e1 e2 e3 e4,
+    (Rabs e1 <= u53 /\ Rabs e2 <= u53 /\ Rabs e3 <= u53 /\ Rabs e4 <= u53 /\
+    Rv r4 = Rv v * ((1 + e1) * (1 + e2) * (1 + e3) * (1 + e4)) /\
+    Rabs (Rv r4 - Rv v) <= ((1 + u53) * (1 + u53) * (1 + u53) * (1 + u53) - 1) * Rabs (Rv v))%R.
+Proof. exact there_and_back_float_linear. Qed.
+Check C17_there_and_back_float_linear : forall ua ub la lb v,
+  u_conv ua = Linear la -> u_conv ub = Linear lb ->
+  let ca := num_of_bits (l_bits la) in
+  let cb := num_of_bits (l_bits lb) in
+  fin v -> fin ca -> fin cb ->
+  let r1 := nmul v ca in
+  let r2 := through_base fl v ua ub in
+  let r3 := nmul r2 cb in
+  let r4 := through_base fl r2 ub ua in
+  in_range (Rv v * Rv ca) -> in_range (Rv r1 / Rv cb) ->
+  in_range (Rv r2 * Rv cb) -> in_range (Rv r3 / Rv ca) ->
+  exists e1 e2 e3 e4,
+    (Rabs e1 <= u53 /\ Rabs e2 <= u53 /\ Rabs e3 <= u53 /\ Rabs e4 <= u53 /\
+    Rv r4 = Rv v * ((1 + e1) * (1 + e2) * (1 + e3) * (1 + e4)) /\
+    Rabs (Rv r4 - Rv v) <= ((1 + u53) * (1 + u53) * (1 + u53) * (1 + u53) - 1) * Rabs (Rv v))%R.
+Print Assumptions C17_there_and_back_float_linear.
